@@ -5,7 +5,12 @@
 //! (Cli/Model.v: run_lint, run_lint_stdin, run_fix, run_fix_stdin, the three formatters), whose
 //! predicted exit codes / report multisets / writes are compared with the real `sqruff` binary
 //! built from the tree, run in formats {human, github-annotation-native, json} x modes
-//! {directory, path, stdin}. Independently of the model every run is judged against the property text.
+//! {directory, path, stdin, several paths in a generated argument order, the reverse order with the
+//! sub-directory given as a directory}, under configurations that also set the formatter's keys
+//! (`verbose` 0..2, `nocolor`). The formatter is one object for the whole run whose `has_fail`
+//! state is threaded through the dispatches: the several-paths modes run with one worker thread so
+//! that the dispatch order is the argument order, and both an order and its reverse are run.
+//! Independently of the model every run is judged against the property text.
 use std::collections::BTreeSet;
 use std::io::Write as _;
 use std::path::{Path, PathBuf};
@@ -48,7 +53,8 @@ const JUNK: &[&str] = &[
 ];
 const RULESETS: &[&str] = &["core", "all", "CP01,LT01", "AL04,AM04,LT05,RF01", "CP01", "LT01,LT02,AL01,AL02", "AL04", "LT05,LT12"];
 const FORMATS: [&str; 3] = ["human", "github-annotation-native", "json"];
-const MODES: [&str; 3] = ["directory", "path", "stdin"];
+const MODES: [&str; 5] = ["directory", "path", "stdin", "paths", "paths-rev"];
+const FIX_MODES: [&str; 3] = ["directory", "path", "stdin"];
 
 #[derive(Clone, Debug, PartialEq, Eq, PartialOrd, Ord)]
 struct RLine(usize, usize, Option<String>);
@@ -90,7 +96,27 @@ struct Case {
     files: Vec<String>,
     rules: String,
     parsing_errors: bool,
+    /// `verbose` of the configuration (documented range 0-2): the human formatter prints a header for
+    /// every file above 0
+    verbose: i64,
+    nocolor: bool,
+    /// argument order of the several-paths modes (a permutation of the file indices)
+    order: Vec<usize>,
     cls: &'static str,
+}
+impl Case {
+    fn new(dialect: &'static str, files: Vec<String>, rules: &str, parsing_errors: bool, verbose: i64, cls: &'static str) -> Case {
+        let order = (0..files.len()).collect();
+        Case { dialect, files, rules: rules.to_string(), parsing_errors, verbose, nocolor: false, order, cls }
+    }
+    fn input(&self) -> Value {
+        json!({"dialect":self.dialect,"files":self.files,"rules":self.rules,"parsing_errors":self.parsing_errors,"verbose":self.verbose,"nocolor":self.nocolor,"order":self.order})
+    }
+    fn input_only(&self, only: &str) -> Value {
+        let mut v = self.input();
+        v["only"] = json!(only);
+        v
+    }
 }
 
 struct Env {
@@ -105,7 +131,17 @@ struct Run {
 }
 
 fn run(env: &Env, cwd: &Path, args: &[&str], stdin: Option<&str>) -> Run {
+    run_t(env, cwd, args, stdin, false)
+}
+
+/// `one_thread`: a single rayon worker, so that files are dispatched to the formatter in argument order
+fn run_t(env: &Env, cwd: &Path, args: &[&str], stdin: Option<&str>, one_thread: bool) -> Run {
     let mut cmd = Command::new(&env.sqruff);
+    if one_thread {
+        cmd.env("RAYON_NUM_THREADS", "1");
+    } else {
+        cmd.env_remove("RAYON_NUM_THREADS");
+    }
     cmd.current_dir(cwd).env("RUST_BACKTRACE", "0").env("NO_COLOR", "1").args(args).stdout(Stdio::piped()).stderr(Stdio::piped());
     cmd.stdin(if stdin.is_some() { Stdio::piped() } else { Stdio::null() });
     let Ok(mut child) = cmd.spawn() else {
@@ -139,16 +175,24 @@ fn strip_ansi(s: &str) -> String {
     out
 }
 
-/// Parse one run's output into per-file report multisets: Vec<(file name, sorted lines)>.
-fn parse_reports(fmt: &str, r: &Run) -> Option<Vec<(String, Vec<RLine>)>> {
-    let mut files: Vec<(String, Vec<RLine>)> = vec![];
+/// one file of a parsed run: name, header of the human format (Some(true) = PASS, Some(false) = FAIL), sorted lines
+struct Rep(String, Option<bool>, Vec<RLine>);
+
+/// Parse one run's output into per-file report multisets (one entry per header line in the human format).
+fn parse_reports(fmt: &str, r: &Run) -> Option<Vec<Rep>> {
+    let mut files: Vec<Rep> = vec![];
     let code = |c: &str| if c == "????" { None } else { Some(c.to_string()) };
     match fmt {
         "human" => {
             for line in strip_ansi(&r.stderr).lines() {
                 if let Some(rest) = line.strip_prefix("== [") {
-                    let name = rest.rsplit_once("] ").map(|x| x.0).unwrap_or(rest);
-                    files.push((name.to_string(), vec![]));
+                    let (name, status) = rest.rsplit_once("] ")?;
+                    let pass = match status.trim() {
+                        "PASS" => true,
+                        "FAIL" => false,
+                        _ => return None,
+                    };
+                    files.push(Rep(name.to_string(), Some(pass), vec![]));
                 } else if let Some(rest) = line.strip_prefix("L:") {
                     let parts: Vec<&str> = rest.splitn(4, " | ").collect();
                     if parts.len() < 3 || !parts[1].starts_with("P:") {
@@ -157,7 +201,7 @@ fn parse_reports(fmt: &str, r: &Run) -> Option<Vec<(String, Vec<RLine>)>> {
                     let l: usize = parts[0].trim().parse().ok()?;
                     let p: usize = parts[1][2..].trim().parse().ok()?;
                     let c = parts[2].trim();
-                    files.last_mut()?.1.push(RLine(l, p, code(c)));
+                    files.last_mut()?.2.push(RLine(l, p, code(c)));
                 }
             }
         }
@@ -170,8 +214,8 @@ fn parse_reports(fmt: &str, r: &Run) -> Option<Vec<(String, Vec<RLine>)>> {
                     let c = msg.split_once(": ").map(|x| x.0).unwrap_or(msg);
                     let rl = RLine(l.parse().ok()?, col.parse().ok()?, code(c));
                     match files.iter_mut().find(|f| f.0 == name) {
-                        Some(f) => f.1.push(rl),
-                        None => files.push((name.to_string(), vec![rl])),
+                        Some(f) => f.2.push(rl),
+                        None => files.push(Rep(name.to_string(), None, vec![rl])),
                     }
                 }
             }
@@ -185,12 +229,12 @@ fn parse_reports(fmt: &str, r: &Run) -> Option<Vec<(String, Vec<RLine>)>> {
                     let p = d["range"]["start"]["character"].as_u64()? as usize;
                     ls.push(RLine(l, p, d["code"].as_str().map(|s| s.to_string())));
                 }
-                files.push((k.clone(), ls));
+                files.push(Rep(k.clone(), None, ls));
             }
         }
     }
     for f in files.iter_mut() {
-        f.1.sort();
+        f.2.sort();
     }
     Some(files)
 }
@@ -231,8 +275,14 @@ fn write_files(dir: &Path, files: &[String]) -> std::io::Result<()> {
 }
 
 fn run_case(env: &Env, idx: usize, c: &Case, out: &mut Buf) {
-    let input = json!({"dialect":c.dialect,"files":c.files,"rules":c.rules,"parsing_errors":c.parsing_errors});
-    let cfg = format!("[sqruff]\ndialect = {}\nrules = {}\n", c.dialect, c.rules);
+    let input = c.input();
+    let mut cfg = format!("[sqruff]\ndialect = {}\nrules = {}\n", c.dialect, c.rules);
+    if c.verbose != 0 || idx % 2 == 1 {
+        cfg.push_str(&format!("verbose = {}\n", c.verbose));
+    }
+    if c.nocolor {
+        cfg.push_str("nocolor = True\n");
+    }
     // ---- the library's answer for every file (lint mode and fix mode)
     let mut lint_vs: Vec<Vec<V>> = vec![];
     let mut fix_vs: Vec<Vec<V>> = vec![];
@@ -277,9 +327,15 @@ fn run_case(env: &Env, idx: usize, c: &Case, out: &mut Buf) {
         base.push("--parsing-errors");
     }
 
-    // ---- lint: 3 formats x 3 modes
+    // ---- lint: 3 formats x (3 modes + 2 several-paths modes when there are at least two files)
+    let rev: Vec<usize> = c.order.iter().rev().copied().collect();
+    let rev_args: Vec<String> = rev.iter().map(|i| if *i == 1 { "sub".to_string() } else { fname(*i) }).collect();
+    let fwd_args: Vec<String> = c.order.iter().map(|i| fname(*i)).collect();
     for (fi, fmt) in FORMATS.iter().enumerate() {
         for mode in MODES {
+            if mode.starts_with("paths") && c.files.len() < 2 {
+                continue;
+            }
             let mut args = base.clone();
             args.extend_from_slice(&["lint", "-f", fmt]);
             let (r, expect_files): (Run, Vec<usize>) = match mode {
@@ -291,6 +347,14 @@ fn run_case(env: &Env, idx: usize, c: &Case, out: &mut Buf) {
                     args.push("f0.sql");
                     (run(env, &w, &args, None), vec![0])
                 }
+                "paths" => {
+                    args.extend(fwd_args.iter().map(|a| a.as_str()));
+                    (run_t(env, &w, &args, None, true), c.order.clone())
+                }
+                "paths-rev" => {
+                    args.extend(rev_args.iter().map(|a| a.as_str()));
+                    (run_t(env, &w, &args, None, true), rev.clone())
+                }
                 _ => {
                     args.push("-");
                     (run(env, &w, &args, Some(&c.files[0])), vec![0])
@@ -301,13 +365,14 @@ fn run_case(env: &Env, idx: usize, c: &Case, out: &mut Buf) {
             let lib_fail = expect_files.iter().any(|i| lint_vs[*i].iter().any(|v| !v.warning));
             let ok_status = r.status == Some(0) || r.status == Some(1);
             let reps = if ok_status { parse_reports(fmt, &r) } else { None };
+            let name_of = |i: usize| if mode == "stdin" { "<string>".to_string() } else { fname(i) };
             // observed per expected file (a file without printed lines has an empty report)
             let obs: Option<Vec<Vec<RLine>>> = reps.as_ref().map(|reps| {
                 expect_files
                     .iter()
                     .map(|i| {
-                        let name = if mode == "stdin" { "<string>".to_string() } else { fname(*i) };
-                        reps.iter().filter(|f| f.0 == name).flat_map(|f| f.1.clone()).collect::<Vec<_>>()
+                        let name = name_of(*i);
+                        reps.iter().filter(|f| f.0 == name).flat_map(|f| f.2.clone()).collect::<Vec<_>>()
                     })
                     .map(|mut v: Vec<RLine>| {
                         v.sort();
@@ -315,10 +380,22 @@ fn run_case(env: &Env, idx: usize, c: &Case, out: &mut Buf) {
                     })
                     .collect()
             });
+            // header lines of the human format per expected file: Ok(None) = none, Err = more than one
+            let headers: Option<Vec<Result<Option<bool>, usize>>> = reps.as_ref().map(|reps| {
+                expect_files
+                    .iter()
+                    .map(|i| {
+                        let name = name_of(*i);
+                        let hs: Vec<bool> = reps.iter().filter(|f| f.0 == name).filter_map(|f| f.1).collect();
+                        if hs.len() > 1 { Err(hs.len()) } else { Ok(hs.first().copied()) }
+                    })
+                    .collect()
+            });
+            let dup_header = headers.as_ref().map(|h| h.iter().any(|x| x.is_err())).unwrap_or(false);
             let stray = reps.as_ref().map(|reps| {
                 reps.iter().any(|f| {
                     let known = if mode == "stdin" { f.0 == "<string>" } else { expect_files.iter().any(|i| f.0 == fname(*i)) };
-                    !known && !f.1.is_empty()
+                    !known && !f.2.is_empty()
                 })
             });
             // ---------- direct judgement (property text)
@@ -326,12 +403,29 @@ fn run_case(env: &Env, idx: usize, c: &Case, out: &mut Buf) {
             match (&obs, stray) {
                 (None, _) => out.direct(&tag, false, &format!("c18-crash-{}", tag), &format!("no report: status {:?}, stderr: {}", r.status, trunc(&r.stderr, 300)), din),
                 (Some(_), Some(true)) => out.direct(&tag, false, &format!("c18-stray-report-{}", tag), "violations reported for a file that was not given", din),
+                (Some(_), _) if dup_header => out.direct(&tag, false, &format!("c18-file-reported-twice-{}", tag), "a file has more than one header line", din),
                 (Some(o), _) => {
                     let obs_sets: Vec<BTreeSet<RLine>> = o.iter().map(|v| v.iter().cloned().collect()).collect();
+                    // the header of the human format must say FAIL exactly for a file with a non-warning violation,
+                    // and at verbosity above 0 every file has one
+                    let bad_header = if *fmt == "human" {
+                        expect_files.iter().zip(headers.as_ref().unwrap().iter()).find_map(|(i, h)| {
+                            let fails = lint_vs[*i].iter().any(|v| !v.warning);
+                            match h {
+                                Ok(Some(pass)) if *pass == fails => Some(format!("{} has header {} but a non-warning violation is reported for it: {}", name_of(*i), if *pass { "PASS" } else { "FAIL" }, fails)),
+                                Ok(None) if c.verbose > 0 || !lint_vs[*i].is_empty() => Some(format!("{} has no header line (verbose = {})", name_of(*i), c.verbose)),
+                                _ => None,
+                            }
+                        })
+                    } else {
+                        None
+                    };
                     if obs_sets != lib_sets {
                         out.direct(&tag, false, &format!("c18-report-differs-{}", tag), &format!("reported (line, col, rule) set differs from the library's: cli {:?} vs lib {:?}", obs_sets, lib_sets), din);
                     } else if r.status != Some(if lib_fail { 1 } else { 0 }) {
                         out.direct(&tag, false, &format!("c18-lint-exit-{}", tag), &format!("exit {:?} but a non-warning violation is reported: {}", r.status, lib_fail), din);
+                    } else if let Some(msg) = bad_header {
+                        out.direct(&tag, false, &format!("c18-header-{}", tag), &msg, din);
                     } else {
                         out.direct(&tag, true, "", "", Value::Null);
                     }
@@ -339,18 +433,24 @@ fn run_case(env: &Env, idx: usize, c: &Case, out: &mut Buf) {
             }
             // ---------- correspondence case
             let gargs = format!(
-                "({},{},{})",
+                "({},{},({})%Z,{})",
                 ["Human", "Github", "Json"][fi],
                 g_bool(mode == "stdin"),
+                c.verbose,
                 g_list(expect_files.iter().map(|i| g_list(lint_vs[*i].iter().map(|v| v.g()))))
             );
-            let exp = match &obs {
-                Some(o) if stray == Some(false) => format!("(Some ({},{}))", r.status.unwrap_or(99), g_list(o.iter().map(|v| g_list(v.iter().map(g_rl))))),
+            let exp = match (&obs, &headers) {
+                (Some(o), Some(hs)) if stray == Some(false) && !dup_header => format!(
+                    "(Some ({},{}))",
+                    r.status.unwrap_or(99),
+                    g_list(o.iter().zip(hs.iter()).map(|(v, h)| format!("({},{})", g_list(v.iter().map(g_rl)), g_opt(h.clone().ok().flatten().map(g_bool)))))
+                ),
                 _ => "None".to_string(),
             };
             let nontrivial = expect_files.iter().any(|i| !lint_vs[*i].is_empty());
-            let sample = json!({"input":{"dialect":c.dialect,"files":c.files,"rules":c.rules,"parsing_errors":c.parsing_errors,"only":tag},"status":r.status,
+            let sample = json!({"input":c.input_only(&tag),"status":r.status,"linted":expect_files.iter().map(|i| name_of(*i)).collect::<Vec<_>>(),
                 "reported":obs.as_ref().map(|o| o.iter().map(|v| v.iter().map(j_rl).collect::<Vec<_>>()).collect::<Vec<_>>()),
+                "headers":headers.as_ref().map(|hs| hs.iter().map(|h| match h { Ok(Some(true)) => "PASS", Ok(Some(false)) => "FAIL", Ok(None) => "-", Err(_) => "several" }).collect::<Vec<_>>()),
                 "library":expect_files.iter().map(|i| lint_vs[*i].iter().map(|v| j_rl(&v.rl())).collect::<Vec<_>>()).collect::<Vec<_>>()});
             out.case("lint", &tag, nontrivial, gargs, exp, sample);
         }
@@ -367,7 +467,7 @@ fn run_case(env: &Env, idx: usize, c: &Case, out: &mut Buf) {
             out.direct("stdin-flag", refused, "c18-stdin-flag-mix", &format!("'-' mixed with other inputs was not refused: status {:?}", r.status), json!({"input":input,"argv":shape}));
             let gargs = g_list(shape.iter().map(|a| g_bool(*a == "-")));
             let exp = if refused { "None" } else { "(Some false)" };
-            out.case("stdinflag", "stdin-flag", true, gargs, exp.to_string(), json!({"input":{"dialect":c.dialect,"files":c.files,"rules":c.rules,"parsing_errors":c.parsing_errors,"only":"stdin-flag"},"argv":shape,"status":r.status}));
+            out.case("stdinflag", "stdin-flag", true, gargs, exp.to_string(), json!({"input":c.input_only("stdin-flag"),"argv":shape,"status":r.status}));
         }
     }
 
@@ -375,7 +475,7 @@ fn run_case(env: &Env, idx: usize, c: &Case, out: &mut Buf) {
     let fmt_i = idx % 3;
     let fmt = FORMATS[fmt_i];
     let gfmt = ["Human", "Github", "Json"][fmt_i];
-    for mode in MODES {
+    for mode in FIX_MODES {
         let mut args = base.clone();
         let tag = format!("fix-{}-{}", fmt, mode);
         let din = json!({"input":input,"format":fmt,"mode":format!("fix-{}", mode)});
@@ -396,7 +496,7 @@ fn run_case(env: &Env, idx: usize, c: &Case, out: &mut Buf) {
             }
             let gargs = format!("({},{},1)", gfmt, g_list(fix_vs[0].iter().map(|v| v.g())));
             let exp = if ok_status { format!("(Some ({},{}))", r.status.unwrap(), if r.stdout == want { 1 } else { 2 }) } else { "None".to_string() };
-            let sample = json!({"input":{"dialect":c.dialect,"files":c.files,"rules":c.rules,"parsing_errors":c.parsing_errors,"only":tag},"status":r.status});
+            let sample = json!({"input":c.input_only(&tag),"status":r.status});
             out.case("fixstdin", &tag, !fix_vs[0].is_empty(), gargs, exp, sample);
             continue;
         }
@@ -445,7 +545,7 @@ fn run_case(env: &Env, idx: usize, c: &Case, out: &mut Buf) {
         } else {
             "None".to_string()
         };
-        let sample = json!({"input":{"dialect":c.dialect,"files":c.files,"rules":c.rules,"parsing_errors":c.parsing_errors,"only":tag},"status":r.status,"writes":writes});
+        let sample = json!({"input":c.input_only(&tag),"status":r.status,"writes":writes});
         out.case("fix", &tag, any_viol, gargs, exp, sample);
     }
     let _ = std::fs::remove_dir_all(&root);
@@ -470,23 +570,35 @@ pub fn main(args: &Args) {
         let v: Value = serde_json::from_str(&std::fs::read_to_string(path).unwrap()).unwrap();
         let v = if v.get("input").is_some() && v["input"].get("files").is_some() { v["input"].clone() } else { v };
         let d = v["dialect"].as_str().unwrap_or("ansi");
-        cases.push(Case {
-            dialect: DIALECTS.iter().copied().find(|x| *x == d).unwrap_or("ansi"),
-            files: v["files"].as_array().map(|a| a.iter().map(|x| x.as_str().unwrap_or("").to_string()).collect()).unwrap_or_default(),
-            rules: v["rules"].as_str().unwrap_or("core").to_string(),
-            parsing_errors: v["parsing_errors"].as_bool().unwrap_or(false),
-            cls: "replay",
-        });
+        let files: Vec<String> = v["files"].as_array().map(|a| a.iter().map(|x| x.as_str().unwrap_or("").to_string()).collect()).unwrap_or_default();
+        let mut c = Case::new(DIALECTS.iter().copied().find(|x| *x == d).unwrap_or("ansi"), files, v["rules"].as_str().unwrap_or("core"), v["parsing_errors"].as_bool().unwrap_or(false), v["verbose"].as_i64().unwrap_or(0), "replay");
+        c.nocolor = v["nocolor"].as_bool().unwrap_or(false);
+        if let Some(o) = v["order"].as_array() {
+            let o: Vec<usize> = o.iter().filter_map(|x| x.as_u64().map(|x| x as usize)).collect();
+            let mut sorted = o.clone();
+            sorted.sort();
+            if sorted == (0..c.files.len()).collect::<Vec<_>>() {
+                c.order = o;
+            }
+        }
+        cases.push(c);
     } else {
         // regression corpus: the repaired GitHub-format abort, an unfixable-only file, a clean directory
-        cases.push(Case { dialect: "ansi", files: vec![s("SELECT FROM WHERE\n")], rules: s("core"), parsing_errors: true, cls: "regression" });
-        cases.push(Case { dialect: "ansi", files: vec![s("SELECT a FROM t -- noqa:\n"), s("SELECT 1\n")], rules: s("core"), parsing_errors: false, cls: "regression" });
-        cases.push(Case { dialect: "ansi", files: vec![s("SELECT a FROM t1 AS x, t2 AS x\n"), s("SELECT a FROM t\n")], rules: s("AL04"), parsing_errors: false, cls: "regression" });
-        cases.push(Case { dialect: "ansi", files: vec![s("SELECT a FROM t\n"), s("SELECT 1\n")], rules: s("core"), parsing_errors: false, cls: "regression" });
-        cases.push(Case { dialect: "ansi", files: vec![s("SeLeCt  1 from tBl ;\n"), s("SELECT a FROM t\n")], rules: s("CP01,LT01"), parsing_errors: false, cls: "regression" });
+        cases.push(Case::new("ansi", vec![s("SELECT FROM WHERE\n")], "core", true, 0, "regression"));
+        cases.push(Case::new("ansi", vec![s("SELECT a FROM t -- noqa:\n"), s("SELECT 1\n")], "core", false, 0, "regression"));
+        cases.push(Case::new("ansi", vec![s("SELECT a FROM t1 AS x, t2 AS x\n"), s("SELECT a FROM t\n")], "AL04", false, 0, "regression"));
+        cases.push(Case::new("ansi", vec![s("SELECT a FROM t\n"), s("SELECT 1\n")], "core", false, 0, "regression"));
+        cases.push(Case::new("ansi", vec![s("SeLeCt  1 from tBl ;\n"), s("SELECT a FROM t\n")], "CP01,LT01", false, 0, "regression"));
+        // formatter configuration: headers for clean files, failing and clean files interleaved
+        cases.push(Case::new("ansi", vec![s("SELECT a  FROM t\n"), s("SELECT a FROM t\n")], "core", false, 1, "formatter-config"));
+        cases.push(Case::new("ansi", vec![s("SELECT 1\n"), s("SELECT a from t\n"), s("SELECT a FROM t\n")], "core", false, 2, "formatter-config"));
+        cases.push(Case::new("ansi", vec![s("SELECT a FROM t\n"), s("SELECT 1\n")], "core", false, 1, "formatter-config"));
+        cases.push(Case::new("ansi", vec![s("SELECT FROM WHERE\n"), s("SELECT 1\n"), s("SELECT a, a FROM t\n")], "core", true, 1, "formatter-config"));
 
         let snippets: Vec<String> = rule_snippets().into_iter().map(|(_, t)| if t.ends_with('\n') { t } else { format!("{}\n", t) }).filter(|t| usable(t)).collect();
         let n = if args.thorough() { 2500 } else { 260 };
+        // the choices added later (formatter keys, argument order) come from a second stream so that the contents stay the same
+        let mut rng2 = Rng::new(args.seed ^ 0xC18);
         for _ in 0..n {
             let nfiles = rng.range(1, 3);
             let mut files = vec![];
@@ -519,7 +631,26 @@ pub fn main(args: &Args) {
                 files.push(t);
             }
             let dialect = if rng.chance(2, 3) { "ansi" } else { ["postgres", "bigquery", "snowflake", "sparksql"][rng.below(4)] };
-            cases.push(Case { dialect, files, rules: RULESETS[rng.below(RULESETS.len())].to_string(), parsing_errors: rng.chance(1, 2), cls });
+            let rules = RULESETS[rng.below(RULESETS.len())];
+            let pe = rng.chance(1, 2);
+            // with several files, now and then make sure a clean file sits among them (a header that says PASS)
+            if files.len() >= 2 && rng2.chance(1, 4) {
+                let k = rng2.below(files.len());
+                files[k] = CLEAN[rng2.below(CLEAN.len() - 1)].to_string();
+            }
+            let verbose = match rng2.below(10) {
+                0..=3 => 0,
+                4..=7 => 1,
+                _ => 2,
+            };
+            let mut c = Case::new(dialect, files, rules, pe, verbose, cls);
+            c.nocolor = rng2.chance(1, 3);
+            // a random argument order (Fisher-Yates)
+            for k in (1..c.order.len()).rev() {
+                let m = rng2.below(k + 1);
+                c.order.swap(k, m);
+            }
+            cases.push(c);
         }
     }
     let items: Vec<(usize, Case)> = cases.into_iter().enumerate().collect();
